@@ -6,7 +6,7 @@ CONSTANTS MaxChunks, MaxMsg
 Has(out, x) == \E j \in 1..Len(out) : out[j] = x
 IsService(x) == x \notin {"ACK", "OPN", "ERR"}
 
-MInit == [acked |-> FALSE, issued |-> FALSE, closed |-> FALSE]
+MInit == [acked |-> FALSE, issued |-> FALSE, closed |-> FALSE, pend |-> 0, bytes |-> 0]
 
 (* C15  No service is processed before the handshake or after channel close *)
 Mon15Step(g, e) ==
@@ -18,13 +18,24 @@ Mon15Step(g, e) ==
                 \cup (IF g.closed /\ e.out # <<>> THEN {"processed-after-close"} ELSE {})
       g1 == [acked |-> g.acked \/ (e.fail = "none" /\ e.kind = "HEL" /\ Has(e.out, "ACK")),
              issued |-> g.issued \/ (e.fail = "none" /\ e.kind \in {"OPNI", "OPNR"} /\ Has(e.out, "OPN")),
-             closed |-> g.closed \/ (e.fail = "none" /\ e.fed /\ (e.kind = "CLO" /\ e.fl = "F")) \/ (e.fail = "none" /\ e.state = "Finished")]
+             closed |-> g.closed \/ (e.fail = "none" /\ e.fed /\ (e.kind = "CLO" /\ e.fl = "F")) \/ (e.fail = "none" /\ e.state = "Finished"),
+             \* chunks / bytes buffered for the incomplete message before the next frame
+             pend |-> IF e.fail = "none" THEN e.pend ELSE g.pend,
+             bytes |-> IF e.fail = "none" THEN e.bytes ELSE g.bytes]
   IN [g |-> g1, viol |-> v]
 
 (* C10  Memory held for an incomplete incoming message is bounded *)
+\* (the ghost is advanced by Mon15Step; g.pend / g.bytes = what was buffered before this frame)
 Mon10Step(g, e) ==
-  LET v == IF e.fail # "none" THEN {}
+  LET \* this chunk is one more than the limits allow for the message it belongs to
+      over == e.kind # "HEL" /\ e.fl \in {"C", "F"}
+              /\ ((MaxChunks > 0 /\ g.pend + 1 > MaxChunks) \/ (MaxMsg > 0 /\ g.bytes + e.sz > MaxMsg))
+      v == IF e.fail # "none" THEN {}
            ELSE (IF MaxChunks > 0 /\ e.pend > MaxChunks THEN {"more-pending-chunks-than-max-chunk-count"} ELSE {})
                 \cup (IF MaxMsg > 0 /\ e.bytes > MaxMsg THEN {"more-pending-bytes-than-max-message-size"} ELSE {})
+                \* a peer exceeding either limit gets an error and the connection is closed: the message is not carried out
+                \cup (IF over /\ e.fed /\ (\E j \in 1..Len(e.out) : IsService(e.out[j]))
+                        THEN {"message-beyond-the-negotiated-limits-was-answered"} ELSE {})
+                \cup (IF over /\ e.fed /\ e.state # "Finished" THEN {"connection-survives-a-message-beyond-the-negotiated-limits"} ELSE {})
   IN [g |-> g, viol |-> v]
 =============================================================================
